@@ -9,7 +9,7 @@ pub const REAL: &[&str] = &["the shipped `packing` binary built from /repo with 
 
 pub fn gen_c20_e4(rng: &mut Rng, _tier: Tier) -> J {
     let mut sc = cliproc::gen_valid(rng);
-    match rng.below(20) {
+    match rng.below(22) {
         0..=5 => {}
         6..=12 => sc.fault = rng.pick(&DISK_FAULTS).to_string(),
         13 => {
@@ -28,6 +28,12 @@ pub fn gen_c20_e4(rng: &mut Rng, _tier: Tier) -> J {
         16 => sc.steps = Some(0),
         17 => sc.inner_steps = Some(0),
         18 => sc.group = rng.pick(&["p3", "P1", "pg", ""]).to_string(),
+        // "run until converged": the middle and last stage end after six loops, the first has 1000 steps
+        20 | 21 => {
+            sc.steps = Some(*rng.pick(&[u64::MAX, u64::MAX - 1, 1_000_000_000_000_000_000, 1 << 40]));
+            sc.inner_steps = Some(*rng.pick(&[1u64, 10, 1000]));
+            sc.convergence = Some(*rng.pick(&[f64::INFINITY, 1e300]));
+        }
         19 if rng.chance(0.5) => sc.fault = "stale-output".into(),
         19 if rng.chance(0.5) => sc.fault = "start-config-other-group".into(),
         _ => sc.fault = "start-config-missing".into(),
